@@ -283,10 +283,7 @@ def chunkTokens (partialOk retain : Bool) (refs : List (List Tok)) (slices : Lis
     (refLens : Option (List Int)) : List (List Tok) × List Nat :=
   let N := refs.length
   let masks := (List.range N).map fun n =>
-    tokenMask partialOk (refs.getD n []) (slices.getD n (0, 0))
-      (match refLens with
-        | none => none
-        | some l => some (l.getD n 0))
+    tokenMask partialOk (refs.getD n []) (slices.getD n (0, 0)) (refLens.map fun l => l.getD n 0)
   let chunkedLens := masks.map fun m => (m.filter id).length
   let flat := select refs.flatten masks.flatten
   let rows := splitLens chunkedLens flat
